@@ -79,6 +79,7 @@ def generate(rng, index, tier):
         # an application listener that takes its time inside a state notification (listeners may be coroutines)
         'slow_listener': ({'state': rng.choice(('CONNECTING', 'CONNECTED', 'CLOSING', 'CLOSED')),
                            'delay': rng.choice([0.0, 0.001, 0.05, 1.0])} if rng.random() < 0.3 else None),
+        'slow_message': rng.choice([0.001, 0.02, 0.3]) if rng.random() < 0.25 else None,
     }
 
 
@@ -97,6 +98,13 @@ def corpus(tier):
                         continue
                     out.append({'seed': 1, 'net': net, 'mode': 'race',
                                 'episodes': [dict(base, kind=kind, obf=obf, typ=typ, end=end)]})
+    # frames buffered behind a slow delivery when the connection is closed locally / by the peer
+    for typ in ('P', 'D'):
+        for end in ('disconnect_during_burst', 'local_disconnect', 'local_disconnect_x2'):
+            for slow in (0.02, 0.3):
+                out.append({'seed': 1, 'net': net, 'mode': 'race', 'slow_message': slow,
+                            'episodes': [dict(base, kind='incoming', obf=False, typ=typ, end=end, frames=6, frame_gap=0.0,
+                                              live_for=0.05)]})
     for mode in ('race', 'fallback'):
         for end in OUT_FAIL_ENDS:
             for k in range(0, 5):
@@ -114,6 +122,8 @@ SHRINK_LISTS = ('episodes',)
 def simplify(plan):
     if plan.get('slow_listener'):
         yield dict(plan, slow_listener=None)
+    if plan.get('slow_message'):
+        yield dict(plan, slow_message=None)
     for i, ep in enumerate(plan['episodes']):
         for key, val in (('frames', 0), ('obf', False), ('typ', 'P'), ('plus_iter', 0), ('at', 0.0), ('live_for', 0.5)):
             if ep.get(key) != val:
@@ -237,6 +247,16 @@ def _run(world: World, plan):
                 await asyncio.sleep(slow['delay'])
         world.keep_alive.append(slow_listener)
         client.events.register(ConnectionStateChangedEvent, slow_listener, priority=2000)
+    slow_msg = plan.get('slow_message')
+    if slow_msg:
+        # an application listener that takes its time with every peer message: the reader task is suspended inside the
+        # delivery while further frames pile up in the stream buffer - those are what a disconnect must not deliver
+        async def slow_message_listener(event):
+            if isinstance(event.connection, PeerConnection):
+                world.probe('slow_message_listener_held_delivery')
+                await asyncio.sleep(slow_msg)
+        world.keep_alive.append(slow_message_listener)
+        client.events.register(MessageReceivedEvent, slow_message_listener, priority=2000)
     world.keep_alive.append(on_message_first)
     client.events.register(MessageReceivedEvent, on_message_first, priority=0)
     initialised = {}
